@@ -56,7 +56,10 @@ struct SigLoop : CommonLoop {                    // the real CommonLoop; fd even
     void runLoop(Mode) override {}
     void stopLoop() override {}
     FdEvent *newFdEvent(const std::string &) override { vpf::FakeFdEvent *e = new vpf::FakeFdEvent; fdevs.push_back(e); return e; }
-    void dispatch() { for (size_t i = 0; i < fdevs.size(); i++) { vpf::FakeFdEvent *e = fdevs[i]; int k = (e->fd - 20) / 2; if (e->on && e->fd >= 20 && k < 4 && g_pipe_open[k] && g_pipe_len[k] > 0) e->fire(FdEvent::kReadEvent); } handleNextFunc(); }
+    // the loop's CURRENT signal pipe event (the loop deletes it when the last subscription goes away and creates a new one later)
+    void dispatch() { vpf::FakeFdEvent *e = static_cast<vpf::FakeFdEvent*>(sp_signal_read_event_);
+        if (e != nullptr) { int k = (e->fd - 20) / 2; if (e->on && e->fd >= 20 && k < 4 && g_pipe_open[k] && g_pipe_len[k] > 0) e->fire(FdEvent::kReadEvent); }
+        handleNextFunc(); }
 };
 #define NEV 3
 #ifndef NSTEP
